@@ -511,7 +511,19 @@ def check(pid, tier, verif_seed, workers=None, runs=None):
         if len(reported) >= 3:
             unlisted += 1
             continue
-        v = vs[0]
+        # a violation that depended on state left behind by earlier runs of its worker does not replay
+        # on its own; take the smallest recorded run that does
+        dec = res = v = None
+        for cand in vs[:25]:
+            r0 = execute(mod, cand["seed"], replay=cand["decisions"])
+            if r0["violation"] and r0["violation"]["sig"] == sig and not r0["harness_error"]:
+                v = cand
+                break
+        if v is None:
+            print("HARNESS-ERROR: violation %s (e.g. run %d) did not reproduce in-process in %d recorded run(s)" % (
+                sig, vs[0]["idx"], min(len(vs), 25)))
+            status = 2
+            continue
         dec, res = shrink(mod, v["seed"], v["decisions"], sig,
                           budget_s=float(os.environ.get("VERIF_SHRINK_S", 45)))
         if res is None:
